@@ -79,7 +79,7 @@ def rd_specs(draw, tier):
     b = draw(crystal_with_supercell(max_atoms=24, max_unit=4, max_det=8, kinds=("hall", "proto", "centred", "p1")))
     b.update(key=draw(keys), pmat=draw(st.sampled_from(["none", "auto", "centring"])), T=draw(st.sampled_from([0.0, 2.0, 50.0, 300.0, 1000.0, 3000.0])),
              dist=draw(st.sampled_from(["quantum", "quantum", "classical"])), cutoff=draw(st.sampled_from([0.01, 0.01, 0.3, 1.0])),
-             via=draw(st.sampled_from(["class", "api", "api_history"])))
+             via=draw(st.sampled_from(["class", "api", "api_history"])), set_masses=draw(st.sampled_from([False, False, True])))
     return b
 
 
@@ -97,6 +97,16 @@ def run_random(spec):
         return Out(nontrivial=False, rejected=True, classes=["ctor_rejected:" + type(e).__name__])
     fc = springs_fc(ph.supercell)
     ph.force_constants = fc
+    scell_model = ph.supercell
+    if spec.get("set_masses"):
+        # masses changed on the finished object; the reference covariance is built from the masses AS SET, expanded with the index maps
+        from phonopy.structure.atoms import PhonopyAtoms
+
+        newm = 1.0 + 40 * rng_from(spec["key"], 43).random(len(ph.primitive))
+        ph.masses = newm
+        prim_ = ph.primitive
+        ms = np.array([newm[prim_.p2p_map[i]] for i in prim_.s2p_map])
+        scell_model = PhonopyAtoms(symbols=ph.supercell.symbols, cell=ph.supercell.cell, scaled_positions=ph.supercell.scaled_positions, masses=ms)
     T, dist, cutoff = spec["T"], spec["dist"], spec["cutoff"]
     if dist == "classical" and T == 0:
         T = 300.0
@@ -115,14 +125,14 @@ def run_random(spec):
         else:
             ph.init_random_displacements(dist_func=dist, cutoff_frequency=cutoff)
         rd = ph.random_displacements
-    C, Cinv, nkeep, gap, freqs = canonical_cov(ph.supercell, fc_cur, T, dist, cutoff, factor)
+    C, Cinv, nkeep, gap, freqs = canonical_cov(scell_model, fc_cur, T, dist, cutoff, factor)
     if gap < 1e-6 or nkeep == 0:
         return Out(nontrivial=False, classes=["skipped_mode_at_cutoff"])
     A, nii, nij = linear_map(rd, T)
     Cgot = A @ A.T
     sc = max(np.abs(C).max(), 1e-300)
     e1 = np.abs(Cgot - C).max() / sc
-    classes = [dist, "via:" + spec["via"], "ii:%d" % min(nii, 8), "ij:%d" % min(nij, 8), "T:%g" % T]
+    classes = [dist, "via:" + spec["via"], "masses_set" if spec.get("set_masses") else "masses_built", "ii:%d" % min(nii, 8), "ij:%d" % min(nij, 8), "T:%g" % T]
     if e1 > 1e-8:
         return Out(ok=False, classes=classes, info={"err": e1},
                    msg="covariance of the generated displacements (A A^T from one-hot normal variates) differs from the harmonic canonical covariance: "
